@@ -34,6 +34,7 @@ import (
 	"github.com/ontio/ontology-crypto/keypair"
 	"github.com/polynetwork/poly/common"
 	"github.com/polynetwork/poly/common/config"
+	"github.com/polynetwork/poly/common/verifhook/ssync"
 	"github.com/polynetwork/poly/consensus/vbft"
 	vconfig "github.com/polynetwork/poly/consensus/vbft/config"
 	"github.com/polynetwork/poly/core/payload"
@@ -41,6 +42,7 @@ import (
 	"github.com/polynetwork/poly/core/types"
 	ptypes "github.com/polynetwork/poly/p2pserver/message/types"
 	"verif.local/engine/ev"
+	"verif.local/engine/lib/sched"
 	"verif.local/engine/polyenv"
 )
 
@@ -342,11 +344,12 @@ func main() {
 	part4ProposalBinding(r)
 	part5VerifyCoverage(r)
 	part6Provenance(r)
+	part7Retention(r)
 	if r.NViolations() == 0 {
 		r.Require("roundtrip_ok", "payload_codec_ok", "payload_verify_accept", "payload_mutant_rejected", "payload_wire_decode_reject",
 			"payload_wire_verify_reject", "proposal_verify_accept", "proposal_mutant_rejected", "proposal_wire_decode_reject", "proposal_wire_verify_reject",
 			"provenance_payload_accept", "provenance_payload_mutant_rejected", "provenance_proposal_accept", "provenance_proposal_mutant_rejected",
-			"provenance_vote_accept", "provenance_vote_mutant_rejected")
+			"provenance_vote_accept", "provenance_vote_mutant_rejected", "retention_ok", "retention_concurrent_ok")
 	}
 	r.Assume("ECDSA P-256 / SHA256withECDSA keys (polyenv deterministic keys), the only scheme the consensus accounts of this code base use",
 		"signature *encoding* malleability (64-byte raw vs scheme-prefixed form) is not a content change and is not explored",
@@ -1854,4 +1857,345 @@ func part6Provenance(r *ev.Run) {
 		"blockProposalMsg": "decoded; decode>encode>decode; a decoded message of another proposal refilled through msg.UnmarshalJSON or Block.Deserialize; mutations precede the first Hash()/Verify() of the object (the verified-then-mutated state is reported, not alarmed: types.Header caches its hash for good)",
 		"blockEndorseMsg/blockCommitMsg": "decoded; decode>encode>decode; a decoded message of another vote refilled by json.Unmarshal; each also with Verify()+HashMsg() before the mutation",
 		"note": "ConsensusPayload.Hash() returns the zero hash constantly (no content hash exists to go stale)"})
+}
+
+// ------------------------------------------------------------------------------------------------
+// Part 7 — encodings and decoded objects stay what they are while LATER messages are encoded / decoded.
+// For every ordered pair (and, for the block-bearing kinds, triple) of message instances and every encoder the first
+// one has: produce encoding A and HOLD it, produce every encoding of the later messages, then
+//   (1) A's bytes are unchanged, (2) A still decodes to message 1 and verifies under key 1 only,
+//   (3) overwriting A in place changes neither a fresh encoding of message 1, nor a retained decoded object, nor the
+//       later encodings.
+// Decode side: an object decoded earlier does not change when later messages are decoded, nor — for the decoders that
+// own their input (JSON envelope, io.Reader) — when the input buffers are overwritten afterwards.
+// Run twice: plainly, and as the single thread of a controlled-scheduler execution (a sync.Pool introduced by a change is
+// then a deterministic free list). Finally encode(1) ∥ encode(2) under all schedules with ≤ 1 preemption.
+
+type codec struct {
+	name string
+	enc  func() ([]byte, error)
+	dec  func(b []byte) (norm any, verify func(k keypair.PublicKey) bool, err error)
+	owns bool // the decoder copies what it keeps (input may be overwritten afterwards)
+}
+
+type retInst struct {
+	name   string
+	norm   any
+	pub    keypair.PublicKey // nil: the kind has no signature check
+	codecs []codec
+	blocky bool
+}
+
+func envelope(t vbft.MsgType, inner []byte) []byte {
+	pj, _ := json.Marshal(inner)
+	return []byte(fmt.Sprintf(`{"type":%d,"len":%d,"payload":%s}`, t, len(inner), pj))
+}
+
+func retentionInstances() []retInst {
+	var out []retInst
+	decMsg := func(b []byte) (any, func(keypair.PublicKey) bool, error) {
+		var m vbft.ConsensusMsg
+		var err error
+		if rec, pn := ev.Guard(func() { m, err = vbft.DeserializeVbftMsg(b) }); pn {
+			return nil, nil, fmt.Errorf("panic: %v", rec)
+		}
+		if err != nil {
+			return nil, nil, err
+		}
+		return m, func(k keypair.PublicKey) bool {
+			ok := false
+			ev.Guard(func() { ok = m.Verify(k) == nil })
+			return ok
+		}, nil
+	}
+	addMsg := func(name string, m vbft.ConsensusMsg, pub keypair.PublicKey, blocky bool) {
+		t := m.Type()
+		in := retInst{name: name, norm: normMsg(m), pub: pub, blocky: blocky}
+		in.codecs = append(in.codecs,
+			codec{"SerializeVbftMsg", func() ([]byte, error) { return vbft.SerializeVbftMsg(m) }, decMsg, true},
+			codec{"msg.Serialize", m.Serialize, func(b []byte) (any, func(keypair.PublicKey) bool, error) { return decMsg(envelope(t, b)) }, true})
+		if mj, ok := m.(interface{ MarshalJSON() ([]byte, error) }); ok {
+			in.codecs = append(in.codecs, codec{"msg.MarshalJSON", mj.MarshalJSON,
+				func(b []byte) (any, func(keypair.PublicKey) bool, error) { return decMsg(envelope(t, b)) }, true})
+		}
+		if blk := vbft.VerifProposalBlock(m); blk != nil {
+			in.codecs = append(in.codecs, codec{"Block.Serialize", blk.Serialize, func(b []byte) (any, func(keypair.PublicKey) bool, error) {
+				nb := &vbft.Block{}
+				var err error
+				if rec, pn := ev.Guard(func() { err = nb.Deserialize(b) }); pn {
+					return nil, nil, fmt.Errorf("panic: %v", rec)
+				}
+				if err != nil {
+					return nil, nil, err
+				}
+				pm := vbft.VerifMsgProposal(nb)
+				return pm, func(k keypair.PublicKey) bool { ok := false; ev.Guard(func() { ok = pm.Verify(k) == nil }); return ok }, nil
+			}, false})
+		}
+		out = append(out, in)
+	}
+	small := blockSpec{Hdr: 0, Ntx: 0, Nsig: 1, Cfg: 0, Empty: true}
+	large := blockSpec{Hdr: 2, Ntx: 3, Nsig: 4, Cfg: 2, Empty: true}
+	noEmpty := blockSpec{Hdr: 1, Ntx: 1, Nsig: 1, Cfg: 0, Empty: false}
+	addMsg("proposal/small", vbft.VerifMsgProposal(small.build()), keys[0].Pub, true)
+	addMsg("proposal/large", vbft.VerifMsgProposal(large.build()), keys[0].Pub, true)
+	addMsg("proposal/no-empty-block", vbft.VerifMsgProposal(noEmpty.build()), keys[0].Pub, true)
+	addMsg("fetch-resp/small", &vbft.BlockFetchRespMsg{BlockNumber: 1, BlockHash: common.Uint256(hash32("a")), BlockData: small.build()}, nil, true)
+	addMsg("fetch-resp/large", &vbft.BlockFetchRespMsg{BlockNumber: 0xffffffff, BlockHash: allFF(), BlockData: large.build()}, nil, true)
+	h := common.Uint256(hash32("blk"))
+	sg, _ := signature.Sign(keys[1], h[:])
+	addMsg("endorse", vbft.VerifMsgEndorse(2, 1, 10, h, false, nil, pat(64, 1), sg), keys[1].Pub, false)
+	addMsg("commit/large", vbft.VerifMsgCommit(2, 1, 10, h, true, nil, pat(64, 1), map[uint32][]byte{1: pat(64, 2), 3: pat(300, 4), 7: pat(64, 9)}, sg), keys[1].Pub, false)
+	addMsg("handshake/with-config", vbft.VerifMsgHandshake(9, h, 2, chainCfgs[2].(*vconfig.ChainConfig)), nil, false)
+	addMsg("proposal-fetch", vbft.VerifMsgProposalFetch(3, 11), nil, false)
+	for _, pf := range []struct {
+		name string
+		f    plFields
+	}{{"payload/small", plFields{Height: 3, Data: pat(40, 1), Owner: 2}}, {"payload/large", plFields{Version: 1, Height: 9, BkIndex: 2, Timestamp: 77, Data: pat(70000, 0), Owner: 2}}} {
+		p := pf.f.build()
+		signPayload(p, keys[pf.f.Owner])
+		mkdec := func(d func([]byte) (*ptypes.ConsensusPayload, error)) func(b []byte) (any, func(keypair.PublicKey) bool, error) {
+			return func(b []byte) (any, func(keypair.PublicKey) bool, error) {
+				q, err := d(b)
+				if err != nil {
+					return nil, nil, err
+				}
+				return q, func(k keypair.PublicKey) bool {
+					own := bytes.Equal(keypair.SerializePublicKey(q.Owner), keypair.SerializePublicKey(k))
+					return own && verifyPayload(q)
+				}, nil
+			}
+		}
+		out = append(out, retInst{name: pf.name, norm: normPayload(p), pub: keys[pf.f.Owner].Pub, codecs: []codec{
+			{"ToArray", func() ([]byte, error) { return p.ToArray(), nil }, mkdec(decZC), false},
+			{"Serialization(sink)", func() ([]byte, error) { return encZC(p), nil }, mkdec(decZC), false},
+			{"Serialize(writer)", func() ([]byte, error) { return encStream(p), nil }, mkdec(decStream), true},
+		}})
+	}
+	return out
+}
+
+func normPayload(p *ptypes.ConsensusPayload) any {
+	return map[string]any{"v": p.Version, "prev": hex.EncodeToString(p.PrevHash[:]), "h": p.Height, "bk": p.BookkeeperIndex, "ts": p.Timestamp,
+		"data": hex.EncodeToString(p.Data), "owner": hex.EncodeToString(keypair.SerializePublicKey(p.Owner)), "sig": hex.EncodeToString(p.Signature)}
+}
+
+func normAny(x any) any {
+	switch v := x.(type) {
+	case *ptypes.ConsensusPayload:
+		return normPayload(v)
+	case vbft.ConsensusMsg:
+		return normMsg(v)
+	}
+	return x
+}
+
+func retentionSequential(r *ev.Run, mode string, insts []retInst) (n int) {
+	viol := func(key string, d map[string]any) {
+		d["mode"] = mode
+		r.Violation("retention:"+key, d)
+	}
+	garble := func(b []byte) {
+		for i := range b {
+			b[i] ^= 0xa5
+		}
+	}
+	run := func(seq []int) {
+		first := insts[seq[0]]
+		names := []string{}
+		for _, i := range seq {
+			names = append(names, insts[i].name)
+		}
+		for _, c := range first.codecs {
+			n++
+			det := func() map[string]any { return map[string]any{"sequence": names, "held_encoder": c.name} }
+			A, err := c.enc()
+			if err != nil {
+				viol("encode-error", det())
+				continue
+			}
+			copyA := append([]byte{}, A...)
+			retained, _, err := c.dec(append([]byte{}, copyA...))
+			if err != nil {
+				viol("encoding-does-not-decode", det())
+				continue
+			}
+			type held struct {
+				b, cp []byte
+				who   string
+			}
+			var later []held
+			for _, j := range seq[1:] {
+				for _, c2 := range insts[j].codecs {
+					B, err := c2.enc()
+					if err == nil {
+						later = append(later, held{B, append([]byte{}, B...), insts[j].name + "/" + c2.name})
+					}
+				}
+			}
+			// (1) held bytes unchanged
+			if !bytes.Equal(A, copyA) {
+				viol("held-encoding-changed-by-a-later-encode:"+c.name, det())
+				continue
+			}
+			// (2) still message 1, verifies under key 1 only
+			obj, verify, err := c.dec(append([]byte{}, A...))
+			if err != nil || !reflect.DeepEqual(normAny(obj), first.norm) {
+				viol("held-encoding-no-longer-decodes-to-its-message:"+c.name, det())
+				continue
+			}
+			if first.pub != nil && (!verify(first.pub) || verify(keys[5].Pub)) {
+				viol("held-encoding-verification-changed:"+c.name, det())
+				continue
+			}
+			// (3) overwrite the held bytes
+			garble(A)
+			fresh, err := c.enc()
+			if err != nil || !bytes.Equal(fresh, copyA) {
+				viol("fresh-encoding-affected-by-overwriting-held-bytes:"+c.name, det())
+				continue
+			}
+			if !reflect.DeepEqual(normAny(retained), first.norm) || !reflect.DeepEqual(normAny(obj), first.norm) {
+				viol("decoded-object-affected-by-overwriting-held-bytes:"+c.name, det())
+				continue
+			}
+			bad := false
+			for _, l := range later {
+				if !bytes.Equal(l.b, l.cp) {
+					d := det()
+					d["later"] = l.who
+					viol("later-encoding-changed:"+c.name, d)
+					bad = true
+					break
+				}
+			}
+			if bad {
+				continue
+			}
+			// decode side
+			buf1 := append([]byte{}, copyA...)
+			d1, _, err := c.dec(buf1)
+			if err != nil {
+				continue
+			}
+			var bufs [][]byte
+			for _, j := range seq[1:] {
+				for _, c2 := range insts[j].codecs {
+					if e2, err := c2.enc(); err == nil {
+						b2 := append([]byte{}, e2...)
+						if _, _, err := c2.dec(b2); err == nil && c2.owns {
+							bufs = append(bufs, b2)
+						}
+					}
+				}
+			}
+			if c.owns {
+				garble(buf1)
+			}
+			for _, b := range bufs {
+				garble(b)
+			}
+			if !reflect.DeepEqual(normAny(d1), first.norm) {
+				viol("decoded-object-changed-by-later-decodes-or-input-reuse:"+c.name, det())
+				continue
+			}
+			r.Class("retention_ok")
+		}
+	}
+	for i := range insts {
+		for j := range insts {
+			run([]int{i, j})
+		}
+	}
+	for i := range insts {
+		for j := range insts {
+			for k := range insts {
+				if insts[i].blocky && insts[j].blocky && insts[k].blocky {
+					run([]int{i, j, k})
+				}
+			}
+		}
+	}
+	return n
+}
+
+func part7Retention(r *ev.Run) {
+	insts := retentionInstances()
+	n1 := retentionSequential(r, "plain", insts)
+	n2 := 0
+	x := ssync.Run([]func(){func() { n2 = retentionSequential(r, "controlled-scheduler/single-thread", insts) }}, nil)
+	if x.Deadlock || len(x.Panics) > 0 {
+		r.Violation("retention:panic-under-controlled-scheduler", map[string]any{"panics": fmt.Sprint(x.Panics)})
+	}
+	r.Evals(n1 + n2)
+	// concurrent encoders
+	type enc struct {
+		name string
+		f    func() ([]byte, error)
+	}
+	var encs []enc
+	for _, in := range insts {
+		if !in.blocky && !strings.HasPrefix(in.name, "payload") && in.name != "commit/large" {
+			continue
+		}
+		for _, c := range in.codecs {
+			if c.name == "msg.MarshalJSON" || c.name == "Serialization(sink)" {
+				continue
+			}
+			encs = append(encs, enc{in.name + "/" + c.name, c.enc})
+		}
+	}
+	solo := make([][]byte, len(encs))
+	for i, e := range encs {
+		solo[i], _ = e.f()
+		solo[i] = append([]byte{}, solo[i]...)
+	}
+	total := sched.Stats{}
+	pairs := 0
+	for i := range encs {
+		for j := range encs {
+			if i == j && !strings.Contains(encs[i].name, "proposal") {
+				continue
+			}
+			if r.Expired() {
+				r.Capped("deadline inside the concurrent-encoder pairs")
+				break
+			}
+			pairs++
+			st := sched.Explore(1, r.Expired, func(prefix []int) ssync.Exec {
+				res := make([][]byte, 2)
+				ex := ssync.Run([]func(){
+					func() { res[0], _ = encs[i].f() },
+					func() { res[1], _ = encs[j].f() },
+				}, prefix)
+				r.Eval()
+				det := map[string]any{"thread0": encs[i].name, "thread1": encs[j].name, "schedule": fmt.Sprint(ex.Choices)}
+				switch {
+				case ex.Deadlock || len(ex.Panics) > 0:
+					det["panics"] = fmt.Sprint(ex.Panics)
+					r.Violation("retention:concurrent-encode-deadlock-or-panic", det)
+				case !bytes.Equal(res[0], solo[i]) || !bytes.Equal(res[1], solo[j]):
+					det["thread0_intact"], det["thread1_intact"] = bytes.Equal(res[0], solo[i]), bytes.Equal(res[1], solo[j])
+					r.Violation("retention:concurrent-encode-differs-from-the-same-encode-alone", det)
+				default:
+					r.Class("retention_concurrent_ok")
+				}
+				return ex
+			})
+			total.Schedules += st.Schedules
+			total.Points += st.Points
+			if st.MaxPoints > total.MaxPoints {
+				total.MaxPoints = st.MaxPoints
+			}
+		}
+	}
+	names := []string{}
+	for _, in := range insts {
+		names = append(names, fmt.Sprintf("%s(%d codecs)", in.name, len(in.codecs)))
+	}
+	r.Note("retention_part", map[string]any{"instances": names, "held_encoding_checks_per_mode": n1, "modes": []string{"plain", "single thread of a controlled-scheduler execution (sync.Pool = deterministic free list)"},
+		"sequences": "all ordered pairs incl. (x,x); all ordered triples of the block-bearing kinds",
+		"decoders_owning_their_input": "DeserializeVbftMsg (JSON envelope), ConsensusPayload.Deserialize(io.Reader); the zero-copy decoders (ConsensusPayload.Deserialization, Block.Deserialize) take ownership of the input buffer by design, so only 'later decodes' is checked for them",
+		"concurrent_encoder_pairs": pairs, "preemption_bound": 1, "schedules": total.Schedules, "scheduling_points_total": total.Points, "longest_execution_points": total.MaxPoints,
+		"scheduling_points": "every sync primitive of consensus/vbft, consensus/vbft/config, p2pserver/message/types, core/types, common (there is none on the encode paths of the unchanged tree: one schedule per pair)"})
 }
